@@ -168,6 +168,7 @@ def plan(tier, rng, sl, nslices, stats):
 
 
 def run_case(c, stats):
+    from pyformlang.finite_automaton import Symbol
     fa = gfa.build(c)
     kind = c["kind"]
     stats.cls("kind:" + kind)
@@ -179,7 +180,7 @@ def run_case(c, stats):
             stats.cls("state_str_collision")
     words = list(gfa.words_for(c, c.get("words", 3)))
     for i, w in enumerate(words):
-        call(fa.accepts, values.word_form(w, i))
+        call(fa.accepts, values.word_form(w, i, wrap=Symbol))
     ok, d = call(fa.to_deterministic)
     if ok:
         for w in words[:12]:
